@@ -25,11 +25,11 @@ TEXT = {
     "C01": dict(
         technique=_PT_TECH,
         text="Seeded search over histories (tiny PID ranges force reuse; events fire between calls and just before the n-th procfs access inside a call). The oracle reads the simulated kernel's effects log: every signal/setting caused by a handle must reach the incarnation the handle was created for, with the exact payload; a call on a recycled PID must raise NoSuchProcess and deliver nothing; no kill() with pid <= 0 ever. Sampled, not exhaustive: a clean batch is evidence, not proof.",
-        note=_PT_NOTE, ref="DESIGN.md section 9, C01"),
+        note=_PT_NOTE + " Handles include psutil.Popen objects whose child is reaped behind their back.", ref="DESIGN.md section 9, C01"),
     "C02": dict(
         technique=_PT_TECH + "; wall-clock steps as events",
         text="Same histories plus wall-clock steps (the published btime moves) and interleaved boot_time()/create_time()/process_iter(); for every pair of handles ==/hash() must follow (pid, incarnation) and is_running() must follow the incarnation's presence in the table, be sticky once False and never be resurrected by PID reuse. Sampled.",
-        note=_PT_NOTE, ref="DESIGN.md section 9, C02"),
+        note=_PT_NOTE + " Handles are also built while /proc/<pid>/stat is unreadable and through psutil.Popen (simulated fork). A second leg (threads engine) has 2-3 real threads call is_running()/== on one shared object under the baton scheduler while at most one of them makes the process exit or the PID change hands.", ref="DESIGN.md section 9, C02"),
     "C04": dict(
         technique=_PT_TECH + "; overlapping iterators",
         text="Histories of table changes between and during pids()/pid_exists()/process_iter() (complete, partial, with attrs, overlapping generators, cache_clear): listing equality at the listing access, ascending/unique/listed yields, object identity across successive non-overlapping complete iterations, eviction, refresh after is_running() found a recycled PID, eventual coherence after overlap. Sampled.",
